@@ -333,10 +333,10 @@ def sequence_strategy(tier):
 PARTS = [
     Part("grid", "enum", check, cases=grid_cases, exhaustive=True),
     Part("random", "hyp", check, strategy=random_strategy,
-         examples={"quick": 300, "thorough": 2500}, shards={"quick": 6, "thorough": 16}),
+         examples={"quick": 300, "thorough": 10000}, shards={"quick": 6, "thorough": 16}),
     Part("sequences", "enum", check_sequence, cases=sequence_cases, exhaustive=True),
     Part("random-sequences", "hyp", check_sequence, strategy=sequence_strategy,
-         examples={"quick": 150, "thorough": 1500}, shards={"quick": 6, "thorough": 16}),
+         examples={"quick": 150, "thorough": 6000}, shards={"quick": 6, "thorough": 16}),
 ]
 
 
